@@ -3,6 +3,7 @@ package props
 import (
 	"bytes"
 	"fmt"
+	"strings"
 	"math/big"
 	"sync"
 
@@ -329,6 +330,47 @@ func genC06(rng *hx.Rng, tier string, w *hx.Writer) error {
 			oracle = hx.Fail("verify-differs-from-evm", "one key object, verifications of (valid, valid, negated, valid) and then the key's encoding compared with what it was: got "+seq+", want accept, accept, reject, accept, unchanged")
 		}
 		w.Put(hx.Case{Entry: "-", Op: 0, Args: hx.L(hx.Z(x), hx.B(msg)), Impl: seq, Oracle: oracle, Tags: []string{"key-object-reused", "nt"}})
+	}
+	// the message is a WINDOW of a larger buffer (a packet "message || signature", a message followed
+	// by other data): Sign and Verify read the message and write nothing - the bytes behind it stay
+	// what they were, and a signature that lies right behind its message verifies
+	for _, ml := range []int{0, 1, 24, 31, 32, 33, 135, 136, 137, 1000} {
+		x := new(big.Int).Add(rng.BigBelow(new(big.Int).Sub(q, big.NewInt(1))), big.NewInt(1))
+		msg := rng.Bytes(ml)
+		sig, err := bls.Sign(Bn, Sc(Bn.G2(), x, q), append([]byte{}, msg...))
+		if err != nil {
+			continue
+		}
+		var problems []string
+		res := hx.Catch(func() string {
+			X := Pt(Bn.G2(), x, q)
+			packet := append(append([]byte{}, msg...), sig...)
+			packet = append(packet, 0xAA, 0xBB)
+			ref := append([]byte{}, packet...)
+			if err := bls.Verify(Bn, X, packet[:ml], packet[ml:ml+len(sig)]); err != nil {
+				problems = append(problems, "a valid signature stored right behind its message is refused: "+err.Error())
+			}
+			if !bytes.Equal(packet, ref) {
+				problems = append(problems, "Verify changed bytes behind the message it was given")
+			}
+			buf := append(append([]byte{}, msg...), rng.Bytes(80)...)
+			ref2 := append([]byte{}, buf...)
+			s2, err := bls.Sign(Bn, Sc(Bn.G2(), x, q), buf[:ml])
+			if err != nil || !bytes.Equal(s2, sig) {
+				problems = append(problems, "Sign on a window of a larger buffer gives another signature")
+			}
+			if !bytes.Equal(buf, ref2) {
+				problems = append(problems, "Sign changed bytes behind the message it was given")
+			}
+			return hx.B([]byte(strings.Join(problems, "; ")))
+		})
+		oracle := "ok"
+		if res == hx.P {
+			oracle = hx.Fail("verify-differs-from-evm", "panic with the message as a window of a larger buffer: "+hx.LastPanic)
+		} else if len(problems) > 0 {
+			oracle = hx.Fail("verify-differs-from-evm", fmt.Sprintf("message of %d bytes as a window of a larger buffer: %s", ml, strings.Join(problems, "; ")))
+		}
+		w.Put(hx.Case{Entry: "-", Op: 0, Args: hx.L(hx.Z(x), hx.B(msg)), Impl: res, Oracle: oracle, Tags: []string{"message-window", "nt"}})
 	}
 	// ONE key object, fresh from a scalar multiplication (Jacobian form, never marshalled), verified
 	// against from eight goroutines at once: the first use of a key is often concurrent (a group key
